@@ -19,11 +19,21 @@ type Result struct {
 }
 
 // Gen describes generated rows: row i has one column whose value is Size bytes, a
-// function of (Seed, i) only; see RowSum.
+// function of (Seed, i) only; see RowSum (the last row may have its own size).
 type Gen struct {
 	N    int
 	Size int
 	Seed uint64
+	// LastSize > 0: the last row has this size instead of Size
+	LastSize int
+}
+
+// SizeOf is the size of row i.
+func (g *Gen) SizeOf(i int) int {
+	if g.LastSize > 0 && i == g.N-1 {
+		return g.LastSize
+	}
+	return g.Size
 }
 
 // Null is the literal that Rows uses for SQL NULL.
@@ -467,7 +477,7 @@ func (s *Server) writeResult(p *pconn, st *State, res *Result, e *Entry) bool {
 	}
 	if res.Gen != nil {
 		for i := 0; i < res.Gen.N; i++ {
-			if p.writeGeneratedRow(res.Gen.Seed, i, res.Gen.Size) != nil {
+			if p.writeGeneratedRow(res.Gen.Seed, i, res.Gen.SizeOf(i)) != nil {
 				return false
 			}
 			// a row counts as sent when it left the buffer or fits in it together with the EOF
